@@ -331,6 +331,24 @@ func raceReports(logPath string) []string {
 	return out
 }
 
+// raceSites lists the functions of the two conflicting accesses of a report (coverage only).
+func raceSites(report string) string {
+	var tops []string
+	lines := strings.Split(report, "\n")
+	for i, l := range lines {
+		t := strings.TrimSpace(l)
+		if (strings.HasPrefix(t, "Write at") || strings.HasPrefix(t, "Read at") || strings.HasPrefix(t, "Previous write at") ||
+			strings.HasPrefix(t, "Previous read at")) && i+1 < len(lines) {
+			f := strings.TrimSpace(lines[i+1])
+			if j := strings.LastIndex(f, "/"); j >= 0 {
+				f = f[j+1:]
+			}
+			tops = append(tops, f)
+		}
+	}
+	return strings.Join(tops, "|")
+}
+
 // raceClass names a race report by the functions of its two conflicting accesses.
 func raceClass(report string) string {
 	var tops []string
@@ -346,12 +364,30 @@ func raceClass(report string) string {
 			tops = append(tops, f)
 		}
 	}
-	all := strings.Join(tops, " ")
-	switch {
-	case len(tops) == 2 && strings.Contains(tops[0], "qianbin/directcache.") && strings.Contains(tops[1], "qianbin/directcache."):
-		return "data-race:directcache-entry-flags"
-	case len(tops) == 2 && strings.Contains(all, "thor/v2/trie.(*hasher).hash") && strings.Contains(all, "thor/v2/trie.("):
-		return "data-race:trie-hash-cached-in-shared-node"
+	// F9: both accesses are directcache's entry header accessors (AddFlag writes the flag byte, lw / AddFlag read it)
+	isEntry := func(f string) bool {
+		return f == "github.com/qianbin/directcache.entry.AddFlag" || f == "github.com/qianbin/directcache.entry.lw" ||
+			f == "github.com/qianbin/directcache.entry.HasFlag" || f == "github.com/qianbin/directcache.entry.kw" || f == "github.com/qianbin/directcache.entry.vw"
+	}
+	// F10: one access is the hasher storing / testing the cached hash of a node, the other reads the same node's flags
+	// (cache(), copy(), or the hasher of another trie instance sharing the node)
+	isHasher := func(f string) bool { return f == "github.com/vechain/thor/v2/trie.(*hasher).hash" }
+	isNodeFlags := func(f string) bool {
+		switch f {
+		case "github.com/vechain/thor/v2/trie.(*shortNode).cache", "github.com/vechain/thor/v2/trie.(*fullNode).cache",
+			"github.com/vechain/thor/v2/trie.(*shortNode).copy", "github.com/vechain/thor/v2/trie.(*fullNode).copy",
+			"github.com/vechain/thor/v2/trie.(*hasher).hash":
+			return true
+		}
+		return false
+	}
+	if len(tops) == 2 {
+		switch {
+		case isEntry(tops[0]) && isEntry(tops[1]) && (strings.HasSuffix(tops[0], ".AddFlag") || strings.HasSuffix(tops[1], ".AddFlag")):
+			return "data-race:directcache-entry-flags"
+		case (isHasher(tops[0]) && isNodeFlags(tops[1])) || (isHasher(tops[1]) && isNodeFlags(tops[0])):
+			return "data-race:trie-hash-cached-in-shared-node"
+		}
 	}
 	sort.Strings(tops)
 	for i := range tops {
@@ -367,31 +403,49 @@ func main() {
 		reexecWithRaceLog()
 	}
 	ctx := hx.Init("C20")
-	cfg := crashsim.Config{N: 3, L: 4}
-	w := crashsim.TheWorld(cfg)
+	worldOf := func(scn *crashsim.Scenario) *crashsim.World {
+		cfg := crashsim.Config{N: scn.N, L: scn.L}
+		if cfg.N == 0 || cfg.L == 0 {
+			cfg = crashsim.Config{N: 3, L: 4}
+		}
+		return crashsim.TheWorld(cfg)
+	}
 	readers := 4
 	if ctx.Replay != "" {
 		scn, err := loadReplay(ctx.Replay)
 		if err != nil {
 			hx.Fatal("replay: %v", err)
 		}
-		runScenario(ctx, w, scn, "replay", readers)
+		runScenario(ctx, worldOf(scn), scn, "replay", readers)
 	} else {
 		if dir := os.Getenv("VERIF_CORPUS"); dir != "" {
 			files, _ := filepath.Glob(filepath.Join(dir, "*.json"))
 			sort.Strings(files)
 			for _, f := range files {
 				if scn, err := loadReplay(f); err == nil {
-					runScenario(ctx, w, scn, "corpus:"+filepath.Base(f), readers)
+					runScenario(ctx, worldOf(scn), scn, "corpus:"+filepath.Base(f), readers)
 				}
 			}
 		}
 		rnd := hx.NewRand(ctx.Seed)
 		chains := ctx.Scale(4, 40)
 		for i := 0; i < chains; i++ {
-			mainLen := rnd.Range(5*int(cfg.L), 7*int(cfg.L))
+			// epoch lengths 2..8, 3..7 validators; the first four chains fix the corners
+			cfg := crashsim.Config{L: uint32(rnd.Range(2, 8)), N: rnd.Range(3, 7)}
+			switch i {
+			case 0:
+				cfg = crashsim.Config{L: 4, N: 3}
+			case 1:
+				cfg = crashsim.Config{L: 2, N: 4}
+			case 2:
+				cfg = crashsim.Config{L: 8, N: 7}
+			case 3:
+				cfg = crashsim.Config{L: 3, N: 5}
+			}
+			mainLen := min(rnd.Range(4*int(cfg.L), 6*int(cfg.L)), 34)
 			scn := crashsim.Gen(rnd.Fork(uint64(i)), cfg, mainLen)
-			runScenario(ctx, w, scn, fmt.Sprintf("seed %d chain %d", ctx.Seed, i), readers)
+			ctx.Cov.Count(fmt.Sprintf("config:L=%d,N=%d", cfg.L, cfg.N))
+			runScenario(ctx, crashsim.TheWorld(cfg), scn, fmt.Sprintf("seed %d chain %d", ctx.Seed, i), readers)
 		}
 	}
 	if lp := os.Getenv("VERIF_C20_RACELOG"); lp != "" {
@@ -400,6 +454,7 @@ func main() {
 			for _, one := range strings.Split(rep, "WARNING: DATA RACE")[1:] {
 				c := raceClass(one)
 				byClass[c] = append(byClass[c], one)
+				ctx.Cov.Count("race-sites:" + raceSites(one))
 			}
 		}
 		for _, c := range hx.SortedKeys(byClass) {
